@@ -123,6 +123,12 @@ MUTATIONS += [   # strengthening round 4 (patches under mutants/C39/, replayed b
      "concat_bytes written as `cstring`", 'C39-STRTAB strtab:GlobalState.generate_pystring_constants:<helper>:<parameter>'),
     ('Cython/Compiler/Code.py', "generate_pystring_constants: the two `#define ..._UNUSED` lines exchanged / the LZSS branch defines both", 'C39-STRTAB strtab:...:__Pyx_DecompressString_LZSS:enabled'),
 ]
+MUTATIONS += [   # round 6 (seed C39h: `0 / const` returns the int operand with PyLong internals) - patches under mutants/C39/, 8 breaking all reported
+    ('Cython/Utility/Optimize.c', "PyLongBinop: zero shortcut enabled for true division (seed; by c_op == '/'); exact-division shortcut returning PyLong_FromLong; "
+     "`x * 0` returning the constant before the type test; float helper boxing with PyLong_FromDouble", 'C39-KIND kind:PyLongBinop(<op>,<order>):<function>:int'),
+    ('Cython/Utility/Optimize.c', "PyLongBinop: slot_name maps TrueDivide -> floor_divide / Rshift -> lshift", 'C39-KIND kind:... / slot:PyLongBinop(<op>,<order>):__Pyx_Unpacked_$'),
+    ('Cython/Utility/Optimize.c', "PyLongCompare: object variant returns PyLong_FromLong(a op b); PyFloatBinop: `x + 0.0` returns the (int) operand", 'C39-KIND kind:PyLongCompare(...)/PyFloatBinop(...)'),
+]
 PRESERVING = [
     # behaviour-preserving edits, all silent
     (MSC, "`#ifndef CYTHON_USE_TYPE_SPECS` -> `#if !defined(CYTHON_USE_TYPE_SPECS)` in the PyPy block"),
@@ -144,6 +150,9 @@ PRESERVING = [
     ('Cython/Utility/TypeConversion.c', "IsNeg `== 2`, IsZero `== 1`; Sign as `(Py_SIZE(x) > 0) - (Py_SIZE(x) < 0)`; tag word through a new macro __Pyx_PyLong_Tag; IsCompact via DigitCount; the two layouts "
      "exchanged under `#if PY_VERSION_HEX < 0x030C00A7`"),
     ('Cython/Compiler/Code.py', "lengths held in locals; %-format / str.format instead of f-strings; emission moved into a module-level helper function; `compressions` rows carry the size as a fourth element"),
+    # round 6: C39-KIND silent
+    ('Cython/Utility/Optimize.c', "zero-shortcut condition as `c_op in '*%&>><<' or (c_op == '/' and op != 'TrueDivide')`; shortcut as `Py_INCREF(op1); return op1;`; PyLongCompare through PyBool_FromLong; "
+     "true-division result through locals and the slot call through a local binaryfunc"),
 ]
 
 
